@@ -284,6 +284,7 @@ impl World {
         hash_call(&mut self.log, &mut self.sig, &rec, codec);
         if let Res::Err(e) = rec.result {
             self.errors.push((now, addr, rec.input.kind(), e));
+            self.stats.inc(&format!("result_err_{e:?}"));
         }
         self.stats.inc("calls");
         if crate::script::trace_on() {
